@@ -357,3 +357,40 @@ Proof.
   intros Hk Hun. apply (mean_sens_none _ _ _ (inject_Z k)). now apply arange_in.
   now apply point_uncalibrated_none.
 Qed.
+
+(* ================================================================== additions (harness coverage audit) *)
+(* InterpCalibration(..., fill_value=c): an explicit numeric fill value replaces NaN outside the table (the caller's
+   opt-out); fill = None is the default NaN. *)
+Definition interp_fill (t : tbl) (fill : option Q) (q : Q) : option Q :=
+  match interp t q with Some v => Some v | None => fill end.
+
+Definition check_interp_fill (t : tbl) (fill : option Q) (g : Q) (qs : list (Q * obs)) : bool :=
+  forallb (fun p => check_one (interp_fill t fill (fst p)) g (snd p)) qs.
+
+(* get_mean_sf over an explicit frequency list (the harness evaluates np.arange(flb, fub) with the code's own
+   expression, so that float, NumPy-integer and off-integer bounds are covered) *)
+Definition mean_sens_fs (lookup : Q -> option Q) (fs : list Q) : option (list Q) :=
+  match fs with
+  | [] => None
+  | _ => all_some (map lookup fs)
+  end.
+
+Definition check_mean_fs_interp (t : tbl) (fill : option Q) (fs : list Q) (raised : bool) : bool :=
+  Bool.eqb (is_none (mean_sens_fs (interp_fill t fill) fs)) raised.
+Definition check_mean_fs_point (t : tbl) (fs : list Q) (raised : bool) : bool :=
+  Bool.eqb (is_none (mean_sens_fs (point t) fs)) raised.
+
+Lemma interp_fill_default t q : interp_fill t None q = interp t q.
+Proof. unfold interp_fill. destruct (interp t q); reflexivity. Qed.
+
+Lemma interp_fill_inside t fill q v : interp t q = Some v -> interp_fill t fill q = Some v.
+Proof. unfold interp_fill. intros ->. reflexivity. Qed.
+
+Lemma mean_sens_is_fs lookup flb fub : mean_sens lookup flb fub = mean_sens_fs lookup (arange flb fub).
+Proof. unfold mean_sens, mean_sens_fs. destruct (arange flb fub); reflexivity. Qed.
+
+Lemma mean_sens_fs_none lookup fs f : In f fs -> lookup f = None -> mean_sens_fs lookup fs = None.
+Proof.
+  intros Hin Hf. unfold mean_sens_fs. destruct fs as [|f0 r] eqn:E. reflexivity.
+  apply all_some_none. rewrite <- Hf. now apply in_map.
+Qed.
